@@ -81,7 +81,8 @@ def gen_field_history(rng, n, strict=False, reject=False):
         elif k == 6:
             ops.append(['remove', rng.randrange(0, 4)])
         elif k == 7:
-            ops.append(rng.choice([['setelem_attached', name, val], ['setparent_none', rng.randrange(0, 4)], ['copy', name.lower(), val]]))
+            ops.append(rng.choice([['setelem_attached', name, val], ['setparent_none', rng.randrange(0, 4)], ['copy', name.lower(), val],
+                                   ['ctor_component', rng.choice(['ST', 'ID', 'varies', name])]]))
         elif k == 8:
             ops.append(['seti', name.lower(), 0, val])
         else:
@@ -457,6 +458,24 @@ def run_history(h):
                 # an addition spelled as a constructor call, `Child(name, datatype=<one it cannot take>, parent=root)`: when the constructor
                 # raises, root lists what it listed before (an unknown datatype, a datatype STRICT does not let override, ...)
                 Child(op[1], datatype=op[2], parent=root, version=v, validation_level=lvl)
+            elif kind == 'ctor_component':
+                # an addition spelled as a constructor call: `Component(<name> | datatype=<dt>, parent=root)`. While it is listed, every
+                # lookup agrees with the list (an unnamed component takes its datatype as name: the parent must index it under THAT name);
+                # it is then taken out again, so the reference model is not concerned
+                try:
+                    c = Component(op[1], parent=root, version=v, validation_level=lvl) if '_' in op[1] else \
+                        Component(datatype=op[1], parent=root, version=v, validation_level=lvl)
+                except Exception:  # noqa
+                    c = None
+                    raise
+                mid = invariants(root)
+                nm = c.name
+                if nm is not None and not any(x is c for x in root.children.indexes.get(nm, [])):
+                    mid = mid + ['constructed-child-not-indexed-under-its-name:%s (keys %r)' % (nm, sorted(map(str, root.children.indexes)))]
+                if mid:
+                    extra.append(('mid-invariant', 'while the constructed child is listed: ' + ';'.join(mid[:4])))
+                substep()
+                root.children.remove(c)
             elif kind == 'add_wrongclass':
                 root.add(Component('CX_1', version=v, validation_level=lvl))
             elif kind == 'set_wrongname':
@@ -614,6 +633,9 @@ def run_history(h):
         for x in extra:
             if isinstance(x, tuple) and x[0] == 'source-changed':
                 inv = inv + ['copy-changed-its-source:' + x[1][:120]]
+                continue
+            if isinstance(x, tuple) and x[0] == 'mid-invariant':
+                inv = inv + [x[1][:300]]
                 continue
             if isinstance(x, tuple) and x[0] == 'detached':
                 if x[1].parent is not None or any(x[1] is y for y in root.children):
